@@ -454,10 +454,26 @@ def gen_cases(ctx):
         yield mk_case(specs, G.make_items(rng, 'rdict', rng.choice([1, 2, 3, 4])), ignore=rng.random() < 0.25)
   yield from counted(rand_r(400 if quick else 8000), 'reserved-names')
 
+  def self_mixed_select(specs):
+    """select((.., Key.SELF, ..)) with another key and no output_keys: the RESERVED key SELF among several default OUTPUT
+    keys.  Not this arm's class (nothing is spelled like a reserved key) and a separate observation reported by SC18:
+    the builder accepts it, `_normalize_outputs` wraps the outputs when SELF comes first (ValueError from zip() for every
+    record), and a following batch() takes `tuple(self.output_keys)` in SET order, so whether SELF comes first depends
+    on the process's str hashing.  The plain wild arm draws this class with the probability it always had."""
+    for sp in specs:
+      if sp['op'] == 'select' and not sp.get('out'):
+        ks = sp['in'].get('many') or [k for _, k in sp['in'].get('kw', [])]
+        if len(ks) > 1 and any('self' in k for k in ks):
+          return True
+    return False
+
   def wild_r(n):
     for _ in range(n):
-      yield mk_case(G.gen_wild(rng, 3, reserved_names=True), G.make_items(rng, 'rdict', rng.randrange(0, 4)),
-                    ignore=rng.random() < 0.2)
+      specs = G.gen_wild(rng, 3, reserved_names=True)
+      items = G.make_items(rng, 'rdict', rng.randrange(0, 4))
+      ignore = rng.random() < 0.2
+      if not self_mixed_select(specs):
+        yield mk_case(specs, items, ignore=ignore)
   yield from counted(wild_r(150 if quick else 3000), 'reserved-names')
 
 
